@@ -205,6 +205,11 @@ def run_c02(ctx):
          'T2': [{'form': 'acquire', 'o': 2, 'blocking': False, 'timeout': -2, 'hold': 0, 'delay': 0.01},
                 {'form': 'acquire', 'o': 2, 'blocking': False, 'timeout': -2, 'hold': 0, 'delay': 0.1}],
          'T3': [{'form': 'acquire', 'o': 3, 'blocking': True, 'timeout': -1, 'hold': 0.3, 'delay': 0.05}]},
+        # a failed attempt on a shared object while the lock changes hands to another thread using the same object
+        {'T1': [{'form': 'acquire', 'o': 2, 'blocking': True, 'timeout': -1, 'hold': 0.1}],
+         'T2': [{'form': 'acquire', 'o': 1, 'blocking': False, 'timeout': -2, 'hold': 0.05, 'delay': 0.01},
+                {'form': 'acquire', 'o': 1, 'blocking': True, 'timeout': 0, 'hold': 0.05, 'delay': 0.02}],
+         'T3': [{'form': 'acquire', 'o': 1, 'blocking': True, 'timeout': -1, 'hold': 0.3, 'delay': 0.05}]},
         {'T1': [{'form': 'with', 'o': 1, 'hold': 0.1}, {'form': 'acquire', 'o': 1, 'blocking': True, 'timeout': 100, 'hold': 0.05, 'delay': 0.2}],
          'T2': [{'form': 'acquire', 'o': 1, 'blocking': True, 'timeout': 50, 'hold': 0.1, 'delay': 0.02},
                 {'form': 'ctx', 'o': 2, 'blocking': True, 'timeout': -1, 'hold': 0.1, 'delay': 0.05}]},
